@@ -97,7 +97,9 @@ def read_layers(text):
                 if c.type == 'binding_set':
                     for b in c.children:
                         if b.type == 'binding':
-                            L[b.child_by_field_name('attrpath').text.decode()] = ' '.join(b.child_by_field_name('expression').text.decode().split())
+                            k_ = b.child_by_field_name('attrpath').text.decode()
+                            while k_ in L: k_ += ' (defined again)'                 # thirteenth round: a second definition of one path must not hide behind the first
+                            L[k_] = ' '.join(b.child_by_field_name('expression').text.decode().split())
             layers.append(L); n = n.child_by_field_name('body')
         elif t in ('function_expression', 'with_expression', 'assert_expression'): n = n.child_by_field_name('body')
         elif t == 'parenthesized_expression': n = n.child_by_field_name('expression')
